@@ -77,6 +77,11 @@ class Specialiser:
         self.changed = False
         self.unrolled = set()          # loop variables of unrolled table loops
         self._call_positions = set()
+        self.aliases = set()           # local names that hold a copy of the subject of the current case assumption
+
+    def _subj(self, e, assume):
+        """e denotes the subject of the case assumption (the expression itself or a local that was assigned from it and not since)"""
+        return assume is not None and (_u(e) == assume[0] or (isinstance(e, ast.Name) and e.id in self.aliases))
 
     # -- literals -----------------------------------------------------------
     def lit(self, e):
@@ -170,7 +175,7 @@ class Specialiser:
         """known python value of e or _UNKNOWN"""
         if isinstance(e, ast.Constant):
             return e.value
-        if assume is not None and _u(e) == assume[0] and assume[1] == "eq":
+        if assume is not None and self._subj(e, assume) and assume[1] == "eq":
             return assume[2]
         if isinstance(e, ast.Name):
             if e.id in env:
@@ -200,7 +205,7 @@ class Specialiser:
             b = self.table_of(e.func.value, env)
             if isinstance(b, dict):
                 k = self.value(e.args[0], env, assume)
-                if k is _UNKNOWN and assume is not None and _u(e.args[0]) == assume[0] and assume[1] == "other" and set(b) <= set(assume[2]):
+                if k is _UNKNOWN and assume is not None and self._subj(e.args[0], assume) and assume[1] == "other" and set(b) <= set(assume[2]):
                     return self.value(e.args[1], env, assume) if len(e.args) == 2 else None
                 if k is not _UNKNOWN:
                     try:
@@ -237,13 +242,33 @@ class Specialiser:
             if isinstance(op, (ast.Is, ast.IsNot)) and isinstance(r, ast.Constant) and r.value is None and lv is not _UNKNOWN and not isinstance(lv, Opaque):
                 res = lv is None
                 return res if isinstance(op, ast.Is) else (not res)
+            if isinstance(op, (ast.In, ast.NotIn)):
+                res = None
+                cont = rv
+                if cont is _UNKNOWN and isinstance(r, (ast.Tuple, ast.List, ast.Set)) and all(isinstance(x, ast.Constant) for x in r.elts):
+                    cont = tuple(x.value for x in r.elts)
+                if isinstance(cont, (tuple, list, set, frozenset, dict)) and not any(isinstance(x, (FRef, Opaque)) for x in cont):
+                    if lv is not _UNKNOWN and not isinstance(lv, (FRef, Opaque)):
+                        try:
+                            res = lv in cont
+                        except TypeError:
+                            res = None
+                    elif assume is not None and assume[1] == "other" and self._subj(l, assume):
+                        try:
+                            if all(x in assume[2] for x in cont):
+                                res = False          # the subject is none of the listed keys
+                        except TypeError:
+                            res = None
+                if res is not None:
+                    return res if isinstance(op, ast.In) else (not res)
+                return None
             if isinstance(op, (ast.Eq, ast.NotEq)):
                 res = None
                 if lv is not _UNKNOWN and rv is not _UNKNOWN and not isinstance(lv, (FRef, Opaque)) and not isinstance(rv, (FRef, Opaque)):
                     res = (lv == rv)
                 elif assume is not None and assume[1] == "other":
                     for a, bv in ((l, rv), (r, lv)):
-                        if _u(a) == assume[0] and bv is not _UNKNOWN:
+                        if self._subj(a, assume) and bv is not _UNKNOWN:
                             try:
                                 if bv in assume[2]:
                                     res = False
@@ -370,6 +395,7 @@ class Specialiser:
             for n in [s] + list(_walk_local(s)):
                 if isinstance(n, ast.Name) and isinstance(n.ctx, (ast.Store, ast.Del)):
                     env.pop(n.id, None)
+                    self.aliases.discard(n.id)
 
     def stmt(self, s, env, assume, rest):
         if isinstance(s, ast.Assign) and len(s.targets) == 1:
@@ -385,6 +411,8 @@ class Specialiser:
                     t2.value = self.residual(t2.value, env, assume)
                 s2.targets = [t2]
             self._kill([s], env)
+            if assume is not None and isinstance(s.targets[0], ast.Name) and self._subj(s.value, assume) and _u(s.value) != s.targets[0].id:
+                self.aliases.add(s.targets[0].id)
             if v is not _UNKNOWN and isinstance(s.targets[0], (ast.Name, ast.Tuple)):
                 try:
                     self._bind(s.targets[0], v, env)
@@ -647,6 +675,7 @@ class Specialiser:
             if k in seen:
                 continue
             seen.append(k)
+            self.aliases = set()
             r, f = self.block(copy.deepcopy(stmts), dict(env), (sk, "eq", k))
             arms.append((k, r, f))
         exhaustive = set(seen) == {True, False} and isinstance(subj, ast.Call) and isinstance(subj.func, ast.Name) and subj.func.id == "bool"
@@ -661,7 +690,9 @@ class Specialiser:
                     x.lineno = getattr(stmts[0], "lineno", 0)
                     x.col_offset = 0
             return [node], f1 == f2 == "return"
+        self.aliases = set()
         r_other, f_other = self.block(copy.deepcopy(stmts), dict(env), (sk, "other", tuple(seen)))
+        self.aliases = set()
         node = None
         tail = r_other
         for k, r, f in reversed(arms):
@@ -756,6 +787,27 @@ def specialise_function(repo, fi):
         return None
     fn = copy.copy(fi.node)
     fn.body = body
+    fn = copy.deepcopy(fn)
+    ast.fix_missing_locations(fn)
+    return fn
+
+
+def case_split(repo, fi, subject, keys):
+    """-> FunctionDef whose body is `if <subject> == k1: B1 elif ... else: B_other`, each Bi the body of fi specialised under the
+    assumption (tests it decides folded away, locals that copy the subject known), or None when the specialiser gives up.  Whatever
+    shape the function dispatches in (if/elif chain, guard clauses with a shared tail, a membership test up front), the rules then
+    read one arm per key."""
+    sp = Specialiser(repo, fi)
+    body = list(fi.node.body)
+    doc = []
+    if body and isinstance(body[0], ast.Expr) and isinstance(body[0].value, ast.Constant) and isinstance(body[0].value.value, str):
+        doc, body = body[:1], body[1:]
+    try:
+        chain, _ = sp._chain(subject, list(keys), body, {})
+    except (GiveUp, RecursionError):
+        return None
+    fn = copy.copy(fi.node)
+    fn.body = doc + chain
     fn = copy.deepcopy(fn)
     ast.fix_missing_locations(fn)
     return fn
